@@ -525,24 +525,24 @@ def run_impl(case):
                 if R.field is not f and not (R.field.mesh == f.mesh and np.array_equal(R.field.array, f.array)):
                     fail(f"{label}: clear_rotation does not restore the original field")
                 model_ops.append({})
-                steps.append(dict(t="clear", ok=True, rotm=R._rotation.as_matrix().tolist()))
+                steps.append(dict(t="clear", ok=True, rotm=core.private(R, "_rotation").as_matrix().tolist()))
                 obs["tags"].append("op:clear")
                 continue
             rng = random.Random(op["rot"]["sub"])
             Mq = quat_matrix(*op["rot"]["quat"])
             if op.get("bad") == "method":
-                before = R._rotation.as_matrix()
+                before = core.private(R, "_rotation").as_matrix()
                 cur = R.field
                 try:
                     R.rotate("from_davenport", [0, 0, 1], "extrinsic", [0.3])
                     fail(f"{label}: unknown rotation method accepted")
                 except Exception:
                     pass
-                if R.field is not cur or not np.array_equal(before, R._rotation.as_matrix()):
+                if R.field is not cur or not np.array_equal(before, core.private(R, "_rotation").as_matrix()):
                     fail(f"{label}: refused rotation method changed the rotator")
                 obs["tags"].append("op:bad-method")
                 model_ops.append(dict(unknown=True))
-                steps.append(dict(t="unknown", ok=False, rotm=R._rotation.as_matrix().tolist()))
+                steps.append(dict(t="unknown", ok=False, rotm=core.private(R, "_rotation").as_matrix().tolist()))
                 continue
             try:
                 name = apply_rot(R, op["rot"], op["n"], rng)
@@ -551,7 +551,7 @@ def run_impl(case):
                 ok = False
                 name = type(e).__name__
             model_ops.append(dict(rot=[Qs(r) for r in Mq], n=op["n"]))
-            st = dict(t="rotate", ok=ok, rotm=R._rotation.as_matrix().tolist(), auto=(op["n"] is None))
+            st = dict(t="rotate", ok=ok, rotm=core.private(R, "_rotation").as_matrix().tolist(), auto=(op["n"] is None))
             obs["tags"] += [f"op:rotate-{'ok' if ok else 'err'}", "via:" + op["rot"]["method"].split(":")[0],
                             "n:" + ("auto" if op["n"] is None else "bad" if op.get("bad") else "explicit"),
                             "rot:" + ("lattice" if is_lattice(Mq) else "generic")]
@@ -686,7 +686,7 @@ def run_impl(case):
             R.rotate("align_vector", initial=[float(x) for x in ini], final=[float(x) for x in fin], n=(1, 1, 1))
             obs["req"] = dict(op="align", initial=Qs(ini), final=Qs(fin))
             # the method's contract (docstring): initial is rotated to final, the cross product is kept fixed
-            M_ = R._rotation.as_matrix()
+            M_ = core.private(R, "_rotation").as_matrix()
             a_, b_ = np.array([float(x) for x in ini]), np.array([float(x) for x in fin])
             cr_ = np.cross(a_, b_)
             sc_ = max(float(np.abs(a_).max()), 1.0)
@@ -715,7 +715,7 @@ def run_impl(case):
             R.rotate("from_matrix", G, n=(1, 1, 1))
             obs["req"] = dict(op="rq", p=a, q=b, k=case["k"])
         obs["field"] = True
-        obs["rotm"] = R._rotation.as_matrix().tolist()
+        obs["rotm"] = core.private(R, "_rotation").as_matrix().tolist()
         M = np.array(obs["rotm"])
         if np.abs(M @ M.T - np.eye(3)).max() > 1e-12 or abs(np.linalg.det(M) - 1) > 1e-12:
             fail(f"{which}: accumulated rotation {M.tolist()} is not a proper rotation")
@@ -779,7 +779,7 @@ def run_impl(case):
         arr = np.asarray(f.array, float)
         P = np.array([[float(x) for x in p] for p in pts])
         pts = [[Fraction(float(x)) for x in row] for row in P.tolist()]   # the points the code really gets
-        out = np.stack([R._create_interpolation_funcs(arr[..., c])(P) for c in range(f.nvdim)], axis=-1)
+        out = np.stack([core.private(R, "_create_interpolation_funcs")(arr[..., c])(P) for c in range(f.nvdim)], axis=-1)
         obs["pts"] = [[Q(x) for x in p] for p in pts]
         obs["out"] = out.tolist()
         obs["tags"] += scale_tags(case["field"])
@@ -862,7 +862,7 @@ def run_impl(case):
                 obs["g"] = R.field
             except Exception as e:
                 obs["rotate"] = "err"
-            obs["rotm"] = R._rotation.as_matrix().tolist()
+            obs["rotm"] = core.private(R, "_rotation").as_matrix().tolist()
         produced = obs["rotate"] == "ok"
         if why == "fine":
             if not produced:
